@@ -37,7 +37,8 @@ TIERS = {
                   props=dict(MaxOps=3, MaxCrashes=1, Ops="OpsQuick"), budget=150, sem_dedupe=True,
                   text_len=2, text_budget=36, extra_workloads=0),
     "thorough": dict(design=dict(MaxOps=4, MaxCrashes=2, Ops="OpsQuick"), emit=dict(MaxOps=3, Ops="OpsFull"),
-                     props=dict(MaxOps=3, MaxCrashes=2, Ops="OpsQuick"), budget=1200, sem_dedupe=False,
+                     props=dict(MaxOps=3, MaxCrashes=1, Ops="OpsQuick"), props2=dict(MaxOps=3, MaxCrashes=2, Ops="OpsQuick"),
+                     budget=1200, sem_dedupe=False,
                      text_len=3, text_budget=300, extra_workloads=40, fixed=dict(MaxOps=3, MaxCrashes=2, Ops="OpsQuick")),
 }
 # invariants of ModelDB.tla expected to FAIL on the protocol as written (design-level findings), property letter
@@ -122,9 +123,16 @@ def _run_text(cfg):
     return res
 
 
-def _run_prop(cfg, dump, workers):
+def _run_prop(cfg, dump, workers, cfg2=None):
+    """one property-layer invariant over the design; if it holds in the first bound, try the larger one (cfg2)"""
     res = core.run_tlc(SPEC / "ModelDB.tla", cfg, workers=workers, timeout=3000, coverage=False,
                        extra=["-dumpTrace", "json", str(dump)])
+    if cfg2 is not None and res.error is None and not res.violated:
+        first = res
+        res = core.run_tlc(SPEC / "ModelDB.tla", cfg2, workers=workers, timeout=3000, coverage=False,
+                           extra=["-dumpTrace", "json", str(dump)])
+        res.distinct += first.distinct
+        res.generated += first.generated
     res.out = res.out[-4000:]
     res.trace = []
     scen = None
@@ -649,7 +657,8 @@ def main(tier: str, seed: int) -> int:
         w_props = []
         for inv, letter in PROP_INVARIANTS:
             cfgp = _cfg("ModelDB.cfg", sc, f"prop_{inv}.cfg", T["props"], [inv])
-            w_props.append((inv, letter, _bg(_run_prop, cfgp, sc / f"trace_{inv}.json", 2 if tier == "quick" else 4)))
+            cfgp2 = _cfg("ModelDB.cfg", sc, f"prop2_{inv}.cfg", T["props2"], [inv]) if T.get("props2") else None
+            w_props.append((inv, letter, _bg(_run_prop, cfgp, sc / f"trace_{inv}.json", 2 if tier == "quick" else 4, cfgp2)))
 
         chosen, nsig = _select_workloads(cases, tier, rng, T["extra_workloads"])
         workloads = [_ops_of_case(c) for c in chosen]
